@@ -23,7 +23,7 @@ def _cfg(shape, invs, overrides):
     return tlc.derive_cfg("\n".join(out) + "\n", overrides)
 
 
-def assign_check(pid: str, shapes=SHAPES, level="model_checking", case_filter=None):
+def assign_check(pid: str, shapes=SHAPES, level="model_checking", case_filter=None, sessions=(0, 0)):
     chk = Check(pid, level)
     if chk.replay:
         return replay_file(chk)
@@ -52,7 +52,7 @@ def assign_check(pid: str, shapes=SHAPES, level="model_checking", case_filter=No
             cases = [c for c in cases if case_filter(c)]
         if not cases:
             raise MachineryError("no cases emitted for shape " + shape)
-        run_cases(chk, cases, shape)
+        run_cases(chk, cases, shape, sessions=sessions[0 if chk.quick else 1] if shape in ("seq", "dict", "call") else 0)
     return chk
 
 
@@ -67,9 +67,17 @@ def sig_of(m, case):
             "exp": d.get("exp") if m["clause"] == "cats" else None, "got": d.get("got") if m["clause"] == "cats" else None}
 
 
-def run_cases(chk: Check, cases, shape):
+def run_cases(chk: Check, cases, shape, sessions=0):
     by_id = {c["id"]: c for c in cases}
     results = pool.parallel_map(assign_replay._worker, [(c, chk.seed) for c in pool.chunks(cases, 40)])
+    if sessions:
+        # a sample as real pytest sessions (`<approved>,report`: the plugin displays every pending category)
+        from .. import session_driver
+        session_driver.preload()
+        cand = [c for c in cases if c["A"] and not assign_replay.RA.has_tag(c["tm"], {"sn"}) and len(c["exp_cats"]) > len(c["A"])] or cases
+        sub = [dict(c, id=c["id"] + "@session") for c in cand[:: max(1, len(cand) // sessions)][:sessions]]
+        by_id.update({c["id"]: c for c in sub})
+        results += pool.parallel_map(assign_replay._worker, [(c, chk.seed, "session") for c in pool.chunks(sub, 4)])
     errors = 0
     drift = 0
     for chunk in results:
